@@ -10,6 +10,7 @@ CHECKS = {
             "Bounded symbolic model checking: every batch of <=2 (quick) / <=3 (thorough) operations over 3 keys with symbolic values, symbolic do_deletes and symbolic abort position is executed on the real ScratchDB and compared with a last-write-wins model; the solver exhausts all paths.",
             "Trusts CrossHair's model of dict/int, CPython, z3. Wrapped db is a non-failing dict. Outside the bound: longer batches, >3 keys.", "4/C17"),
 }
+L_NOTE = "Trusts CPython, z3 5.1, the pylift interpreter (vf/pylift/core.py; guarded by native execution of every path's witness and native replay of every counterexample), and the stated stubs: keccak as injective uninterpreted functions with shape/length tags (no collisions), eth_utils.to_int as big-endian value, cytoolz partition/partition_all and built-ins by their Python semantics. Bounds (key sizes, history lengths, value length classes) are enumerated; everything outside them is not claimed."
 X_NOTE = "Trusts CPython, CrossHair 0.0.110's models of built-ins, z3 5.1, pyrlp/eth-hash as installed, the independent oracle vf/oracle/mpt.py (validated on two ethereum/tests vectors). Stored keys/values come from finite pools chosen by symbolic indices (exhausted by the solver-driven path search); pre-states are oracle-built canonical states, longer histories are covered by induction over single steps while contents stay in the family. Everything outside the stated bounds is not claimed."
 CHECKS.update({
     "C01": ("X", "symbolic execution (CrossHair+z3): solver-exhausted one-step transitions from every canonical state of a contents family + genuinely symbolic lookup keys on canonical tries; native replay",
@@ -36,6 +37,12 @@ CHECKS.update({
             "Bounded symbolic model checking of HexaryTrieFog against a set model: explore / mark_all_complete / commuting explorations / mixed-length rejection / nearest_unknown / nearest_right / immutability / serialisation round trip.", X_NOTE, "4/C11"),
     "C18": ("X", "symbolic execution (CrossHair+z3): the ill-typed argument is a symbolic value of a union type (type and value chosen by the solver), wrong sizes are symbolic lengths / ints, executed through every listed entry point",
             "Bounded symbolic model checking: 49 + 13 + 11 entry points; refusal with the stated exception type, snapshot equality of all structures afterwards, and a fixed valid continuation giving the results of a twin run without the refused call.", X_NOTE, "4/C18"),
+    "C14": ("L", "AST-to-SMT symbolic interpretation of trie/smt.py (pylift): keys as bit-vectors, values/default as uninterpreted atoms, keccak as injective UFs; z3 unsat of the negated property per merged path + coverage closure; native replay of models",
+            "Bounded symbolic model checking: for key_size 1 (<=2-3 ops) and 2 (1-2 ops), all keys / query keys / values at once: get/exists/branch/calc_root/returned hashes/from_db agree with 'last write or default', clearing restores the initial root, write order is irrelevant.", L_NOTE, "4/C14"),
+    "C15": ("L", "AST-to-SMT symbolic interpretation of SparseMerkleProof + SparseMerkleTree (pylift); one path per divergence bit, coverage closure; z3 unsat per path; native replay",
+            "Bounded symbolic model checking: streams of 1-2 (3) updates over symbolic tracked / update keys keep value, branch and root equal to the tree; every truncation length of the hash list is accepted iff it reaches the first differing bit, else ValidationError with the proof unchanged.", L_NOTE, "4/C15"),
+    "C16": ("L", "AST-to-SMT symbolic interpretation of trie/utils/nibbles.py, binaries.py, nodes.py (pylift): every nibble/bit/byte a bit-vector, one z3 query per length; native replay",
+            "Bounded symbolic model checking, exhaustive in the contents for every length up to the bound: HP == Yellow Paper formula and round trip, bytes<->nibbles, bit strings, key-path packing, binary node encode/parse and rejection, hexary node classification, prefix kernels, nibble tables == closed forms.", L_NOTE, "4/C16"),
 })
 NOT_YET = "check not built yet in this round (see DESIGN.md section 4 for the plan); not claimed"
 
